@@ -124,6 +124,10 @@ func (kc *KeyConditionImpl) genRPNElementByVal(
 	}
 	if ok := genRPNElementByOp(op, value, rpnElem); ok {
 		kc.rpn = append(kc.rpn, rpnElem)
+	} else {
+		// an operator the primary key index cannot bound (MATCHPHRASE, IPINRANGE, LIKE, MATCH ...): the predicate may
+		// be true anywhere, and it must still occupy its operand slot for a following AND / OR.
+		kc.rpn = append(kc.rpn, &RPNElement{op: rpn.AlwaysTrue})
 	}
 	return nil
 }
